@@ -370,7 +370,7 @@ class DataFile:
         LOGGER.debug("GSI MNR: %s", self.gsi.MNR)
       except ValueError:
         LOGGER.error("Invalid MNR value: %s", self.gsi.MNR)
-        self.start_offset = DEFAULT_TELETEXT_ROWS
+        self.max_row_count = DEFAULT_TELETEXT_ROWS
     else:
       self.max_row_count = max_row_count
 
